@@ -255,6 +255,16 @@ const streqAxioms = `(declare-fun str_eq (Str Str) Bool)
 (assert (forall ((a Str) (b Str) (c Str)) (! (=> (and (str_eq a b) (str_eq b c)) (str_eq a c)) :pattern ((str_eq a b) (str_eq b c)))))
 `
 
+// string ordering (cmp.Compare[string], <): an uninterpreted three-way comparison that is a total order
+// compatible with content equality.
+const strcmpAxioms = `(declare-fun uf_strcmp (Str Str) Int)
+(assert (forall ((a Str) (b Str)) (! (and (<= (- 1) (uf_strcmp a b)) (<= (uf_strcmp a b) 1)) :pattern ((uf_strcmp a b)))))
+(assert (forall ((a Str) (b Str)) (! (= (uf_strcmp a b) (- (uf_strcmp b a))) :pattern ((uf_strcmp a b)))))
+(assert (forall ((a Str) (b Str)) (! (= (= (uf_strcmp a b) 0) (str_eq a b)) :pattern ((uf_strcmp a b)))))
+(assert (forall ((a Str) (b Str) (c Str)) (! (=> (and (<= (uf_strcmp a b) 0) (<= (uf_strcmp b c) 0)) (<= (uf_strcmp a c) 0)) :pattern ((uf_strcmp a b) (uf_strcmp b c)))))
+(assert (forall ((a Str) (b Str) (c Str)) (! (=> (and (<= (uf_strcmp a b) 0) (<= (uf_strcmp b c) 0) (= (uf_strcmp a c) 0)) (and (= (uf_strcmp a b) 0) (= (uf_strcmp b c) 0))) :pattern ((uf_strcmp a b) (uf_strcmp b c)))))
+`
+
 const streqDefine = `(define-fun str_eq ((a Str) (b Str)) Bool (and (= (s_len a) (s_len b)) (forall ((i Int)) (=> (and (<= 0 i) (< i (s_len a))) (= (str_at a i) (str_at b i))))))
 `
 
